@@ -110,6 +110,11 @@ MUTANTS = [
     # ---------------------------------------------------------------- C06
     m("C06-product-not-reversed", "C06", "inverse-rule@inv(Product,Algorithm)", INV, "output = reversed([inv(M, alg) for M in A.Ms])", "output = [inv(M, alg) for M in A.Ms]"),
     m("C06-kron-reversed", "C06", "inverse-rule@inv(Kronecker,Algorithm)", INV, "return Kronecker(*[inv(M, alg) for M in A.Ms])", "return Kronecker(*reversed([inv(M, alg) for M in A.Ms]))"),
+    # a generator helper is the comprehension it stands for: the faithful form stays silent, the reversed one is refuted
+    m("C06-silent-kron-generator-helper", "C06", "", INV, "@dispatch\ndef inv(A: Kronecker, alg: Algorithm):\n    return Kronecker(*[inv(M, alg) for M in A.Ms])",
+      "def _each_inverse(Ms, alg):\n    for M in Ms:\n        yield inv(M, alg)\n\n\n@dispatch\ndef inv(A: Kronecker, alg: Algorithm):\n    return Kronecker(*_each_inverse(A.Ms, alg))", silent=True),
+    m("C06-kron-generator-helper-reversed", "C06", "inverse-rule@inv(Kronecker,Algorithm)", INV, "@dispatch\ndef inv(A: Kronecker, alg: Algorithm):\n    return Kronecker(*[inv(M, alg) for M in A.Ms])",
+      "def _each_inverse(Ms, alg):\n    for M in Ms[::-1]:\n        yield inv(M, alg)\n\n\n@dispatch\ndef inv(A: Kronecker, alg: Algorithm):\n    return Kronecker(*_each_inverse(A.Ms, alg))"),
     m("C06-blockdiag-multiplicities", "C06", "inverse-rule@inv(BlockDiag,Algorithm)", INV, "return BlockDiag(*[inv(M, alg) for M in A.Ms], multiplicities=A.multiplicities)", "return BlockDiag(*[inv(M, alg) for M in A.Ms])"),
     m("C06-cholesky-transpose", "C06", "inverse-rule@inv(LinearOperator,Cholesky)", INV, "return inv(L.H) @ inv(L)", "return inv(L.T) @ inv(L)"),
     m("C06-lu-order", "C06", "inverse-rule@inv(LinearOperator,LU)", INV, "return inv(U) @ inv(L) @ inv(P)", "return inv(P) @ inv(L) @ inv(U)"),
